@@ -4,6 +4,7 @@ import (
 	"bytes"
 	"fmt"
 	"regexp"
+	"strings"
 )
 
 type Matcher struct {
@@ -138,6 +139,10 @@ func (m *Matcher) MatchRegexAndExpand(key, template []byte) (string, bool) {
 // regexToPrefix inspects the regex and returns the longest static prefix part of the regex
 // all inputs for which the regex match, must have this prefix
 func regexToPrefix(regex string) []byte {
+	// with an alternation the leading literal is only one of the ways to match ("^foo|bar" matches "xbar")
+	if strings.IndexByte(regex, '|') >= 0 {
+		return nil
+	}
 	substr := ""
 	for i := 0; i < len(regex); i++ {
 		ch := regex[i]
@@ -157,6 +162,10 @@ func regexToPrefix(regex string) []byte {
 		} else {
 			//fmt.Println("don't know what to do with", string(ch))
 			// anything more advanced should be regex syntax that is more permissive and hence not a static substring.
+			// a quantifier that allows zero repetitions makes the literal before it optional ("^ab?c" matches "ac")
+			if (ch == '?' || ch == '*' || ch == '{') && len(substr) > 0 {
+				substr = substr[:len(substr)-1]
+			}
 			break
 		}
 	}
